@@ -19,11 +19,15 @@ PLANNER_INVS = {
     "C20": ["InvC04", "InvNames"],
 }
 TRACE_INVS = {
-    "C01": ["InvC01"],
-    "C02": ["InvC02"],
-    "C03": ["InvC03"],
-    "C04": ["InvStruct", "InvC04"],
+    "C01": ["InvC01s", "InvC01x"],
+    "C02": ["InvC02s", "InvC02x"],
+    "C03": ["InvC03s", "InvC03x"],
+    "C04": ["InvStruct", "InvC04s", "InvC04x"],
+    "C05": ["InvC05"],
+    "C07": ["InvC07", "InvC01s", "InvC01x", "InvC02x", "InvC03x", "InvC04x"],
     "C10": ["InvC10"],
+    "C12": ["InvC12s", "InvC12"],
+    "C14": ["InvC14", "InvC04x"],
     "C18": ["InvC18", "InvCap"],
     "C19": ["InvC19"],
     "C20": ["InvC20"],
@@ -89,6 +93,26 @@ def planner_i2s(ctx, invs, count, nmin, nmax, nres, variants=1, extra=(), parall
     return out
 
 
+def exec_i2s(ctx, invs, count, nmin, nmax, nres=8, dispatches=3, extra=(), parallel=True, seed_off=0):
+    """Real dispatches (gated by the controller / free running) recorded and validated by ShredTrace."""
+    out = ctx.fresh("x2s", "ndjson")
+    st = run_bin(ctx, "exec", ["random", "--seed", ctx.seed * 1000 + 17 + seed_off, "--count", count, "--nmin", nmin,
+                               "--nmax", nmax, "--nres", nres, "--dispatches", dispatches, "--out", out] + list(extra),
+                 parallel=parallel)
+    ctx.cov["impl_runs"].append({"kind": "impl->spec recorded real dispatches", "programs": st["programs"],
+                                 "dispatches": st["dispatches"], "systems": st["systems"], "events": st["events"],
+                                 "max_systems_held_inside_run_at_once": st["max_held"], "controller_releases": st["releases"],
+                                 "panicking_dispatches": st["panicking_dispatches"], "parallel_feature": parallel,
+                                 "args": [str(x) for x in extra]})
+    ctx.cov["traces_validated_against_impl"] += st["dispatches"]
+    if st["stalls"]:
+        ctx.note("controller saw %d stall(s) (no system arrived for 20 s); not judged" % st["stalls"])
+    for s in st["samples"][:1]:
+        ctx.sample({"kind": "program whose real dispatches were recorded (validated by ShredTrace)", "prog": s})
+    validate_blocks(ctx, "ShredTrace", out, invs, classify=classify_block)
+    return st
+
+
 def classify_block(blk, inv):
     """Key of a known finding this violating block belongs to, or None."""
     return None
@@ -118,6 +142,44 @@ def planner_family(ctx, prop, mc_extra_props=()):
     ]
 
 
+def exec_family(ctx, prop, extra=(), nopar=False):
+    invs = TRACE_INVS[prop]
+    if ctx.quick():
+        exec_i2s(ctx, invs, count=40, nmin=3, nmax=30, dispatches=3, extra=extra)
+        exec_i2s(ctx, invs, count=4, nmin=60, nmax=150, nres=12, dispatches=2, extra=list(extra) + ["--gated", 0.5], seed_off=1)
+        if nopar:
+            exec_i2s(ctx, invs, count=20, nmin=3, nmax=30, dispatches=2, extra=extra, parallel=False, seed_off=2)
+    else:
+        exec_i2s(ctx, invs, count=400, nmin=3, nmax=40, dispatches=4, extra=extra)
+        exec_i2s(ctx, invs, count=30, nmin=60, nmax=300, nres=14, dispatches=2, extra=list(extra) + ["--gated", 0.5], seed_off=1)
+        if nopar:
+            exec_i2s(ctx, invs, count=100, nmin=3, nmax=40, dispatches=3, extra=extra, parallel=False, seed_off=2)
+    ctx.assumptions += [
+        "events are logged under one mutex while the logging system holds its guards (fetch after acquire, finish before release)",
+        "the controller provokes maximal overlap by holding every started system inside run; timing affects only which schedules are seen",
+    ]
+
+
+def check_C01(ctx):
+    planner_family(ctx, "C01")
+    exec_family(ctx, "C01")
+
+
+def check_C02(ctx):
+    planner_family(ctx, "C02")
+    exec_family(ctx, "C02", extra=["--pdep", 0.5])
+
+
+def check_C03(ctx):
+    planner_family(ctx, "C03")
+    exec_family(ctx, "C03", extra=["--pbarrier", 0.2])
+
+
+def check_C04(ctx):
+    planner_family(ctx, "C04")
+    exec_family(ctx, "C04", extra=["--modes", "disp,par,seq,tlonly,disp", "--ptl", 0.1])
+
+
 def check_C10(ctx):
     planner_family(ctx, "C10")
 
@@ -127,6 +189,10 @@ def check_C20(ctx):
 
 
 CHECKS = {
+    "C01": check_C01,
+    "C02": check_C02,
+    "C03": check_C03,
+    "C04": check_C04,
     "C10": check_C10,
     "C20": check_C20,
 }
